@@ -43,7 +43,7 @@ func c08GenProgram(s *kernel.Stream, spec *PoolSpec, keyRange, maxU int) (string
 		dir = " -r"
 	}
 	filt := func() string { return GenPred(s, spec, keyRange, maxU, 1) }
-	switch s.Pick(4, 3, 3, 3, 2, 2, 2, 2, 2, 2, 3, 3, 2, 3, 3) {
+	switch s.Pick(4, 3, 3, 3, 2, 2, 2, 2, 2, 2, 3, 3, 2, 3, 3, 3, 2) {
 	case 0: // pool-key order + filter, then explicit sort on the unique u
 		return fmt.Sprintf("from p1 | %s | sort u", filt()), "ordered"
 	case 1: // plain scan: pool-key order, ties compared as a multiset per key
@@ -71,6 +71,10 @@ func c08GenProgram(s *kernel.Stream, spec *PoolSpec, keyRange, maxU int) (string
 		return fmt.Sprintf("from p1 | put x:=d>0 ? u : null | sort%s%s x | cut x", []string{"", " -r"}[s.Intn(2)], []string{"", " -nulls first", " -nulls last"}[s.Intn(3)]), "ordered"
 	case 14: // single-key sort on the pool key, which the optimizer may fold into the scan's merge
 		return fmt.Sprintf("from p1 | sort%s%s %s", []string{"", " -r"}[s.Intn(2)], []string{"", " -nulls first", " -nulls last"}[s.Intn(3)], key), "keyorder"
+	case 15: // the pool key is cut away before the legs are joined
+		return fmt.Sprintf("from p1 | cut u | head %d", s.Range(1, 12)), "ordered-if-unique-keys"
+	case 16: // a running count in an expression
+		return "from p1 | put c:=count() | sort u", "ordered"
 	case 12:
 		return "from p1 | avg(d), and(d>0), or(d>2), min(u) by d2:=d%3 | sort d2", "ordered"
 	default:
@@ -167,6 +171,21 @@ func c08Compare(e *Env, r *SeqRun, src, order string, par int, ref, got []c08Row
 		return fmt.Sprintf("%q at parallelism %d differs from parallelism 1 (%s):\n p=1 (%d rows): %s\n p=%d (%d rows): %s", src, par, order, len(a), clipLines(a, 14), par, len(b), clipLines(b, 14))
 	}
 	switch order {
+	case "ordered-if-unique-keys":
+		// The first N values in pool-key order: which of several values
+		// with the same key come first is open, the keys are not.
+		if len(a) != len(b) {
+			return kernel.Violatef(sig+":sequence-differs", "%s", describe())
+		}
+		for i := range ref {
+			ra, rb := e.Recs[ref[i].U], e.Recs[got[i].U]
+			if nullish(ra) && nullish(rb) {
+				continue
+			}
+			if ra.keyString() != rb.keyString() {
+				return kernel.Violatef(sig+":key-order-differs", "%s\n at position %d the value's key is %s at p=1 and %s at p=%d", describe(), i, ra.keyString(), rb.keyString(), par)
+			}
+		}
 	case "ordered":
 		if strings.Join(a, "\n") != strings.Join(b, "\n") {
 			return kernel.Violatef(sig+":sequence-differs", "%s", describe())
